@@ -207,6 +207,7 @@ type verifStore struct {
 	faults  int
 	crashAt int // the process stops right before the crashAt-th Save/Delete (0 = never)
 	mutOps  int
+	slow    bool // a Save takes time: a scheduling point before and after it
 }
 
 // verifStoreCrash is the process stop: nothing after it happens.
@@ -256,6 +257,10 @@ func (s *verifStore) Load(key uint) ([]byte, error) {
 }
 
 func (s *verifStore) Save(key uint, value net.Buffers) error {
+	if s.slow {
+		verifYieldTag("save")
+		defer verifYieldTag("saved")
+	}
 	s.crashPoint()
 	if s.fail("savefail") {
 		s.ops = append(s.ops, verifOp{'S', key, false})
